@@ -508,7 +508,7 @@ package spine
 //@   ensures call: result == nil && CLS == model.CmdClassifierTypeCall ==> rn[S] == K || (rn[S] == K + 1 && rcls[S][K] == model.CmdClassifierTypeReply && ANS(K))
 //@   ensures write: result == nil && CLS == model.CmdClassifierTypeWrite ==> rn[S] == K || (rn[S] == K + 1 && rcls[S][K] == model.CmdClassifierTypeResult && ANS(K))
 //@   ensures bounded: K <= rn[S] && rn[S] <= K + 1
-//@   modifies @RESP, @PUBLISH, world, held, spawn, sendfails, hmn
+//@   modifies @RESP, @PUBLISH, @WRITE, world, held, spawn, sendfails, hmn
 
 //@ func (*DeviceLocal).ProcessCmd safety-root
 //@   assumes r != nil && remoteDevice != nil && r.bindingManager != nil && forall i int :: 0 <= i && i < len(r.entities) ==> r.entities[i] != nil
@@ -536,7 +536,7 @@ package spine
 //@   ensures[C01] others: forall s any :: s != S ==> rn[s] == old(rn)[s]
 //@   ensures[C03] gate-permission: OK && CLS == model.CmdClassifierTypeWrite && LF != nil && cmdHasData(datagram.Payload.Cmd[0]) && cmdHasFct(datagram.Payload.Cmd[0]) && old(!(has(LF.Operations(), cmdFct(datagram.Payload.Cmd[0])) && LF.Operations()[cmdFct(datagram.Payload.Cmd[0])].Write())) ==> result != nil && rn[S] == K + 1 && rcls[S][K] == model.CmdClassifierTypeResult && rerr[S][K] != model.ErrorNumberTypeNoError && hmn == old(hmn)
 //@   ensures[C03] gate-binding: OK && CLS == model.CmdClassifierTypeWrite && LF != nil && old(!r.bindingManager.HasLocalFeatureRemoteBinding(LF.Address(), RF.Address())) ==> result != nil && rn[S] == K + 1 && rcls[S][K] == model.CmdClassifierTypeResult && rerr[S][K] != model.ErrorNumberTypeNoError && hmn == old(hmn)
-//@   modifies @RESP, @PUBLISH, world, held, spawn, hmn, sendfails
+//@   modifies @RESP, @PUBLISH, @WRITE, world, held, spawn, hmn, sendfails
 
 // representation link between the interface-level getters and the fields of the production types
 //@ axiom forall p *FeatureLocal :: {asIface(p, api.FeatureLocalInterface).Address()} p != nil ==> asIface(p, api.FeatureLocalInterface).Address() == p.address
@@ -576,7 +576,8 @@ package spine
 //@   ensures[C01] noack-only-errors: rn[S] == K + 1 && !ACK ==> rerr[S][K] != model.ErrorNumberTypeNoError
 //@   ensures[C01] others: forall s any :: s != S ==> rn[s] == old(rn)[s]
 //@   ensures[C01] older: forall k int :: k < K ==> rcls[S][k] == old(rcls)[S][k] && rerr[S][k] == old(rerr)[S][k]
-//@   modifies @RESP, @PUBLISH, world, held, sendfails
+//@   defines[wapplied,wmsg] wapplied == old(wapplied) + 1 && wmsg == store(old(wmsg), old(wapplied), msg)
+//@   modifies @RESP, @PUBLISH, @WRITE, world, held, sendfails
 
 // write approval (details: C12). No response is sent while a write is pending.
 //@ func (*FeatureLocal).addPendingApproval
@@ -593,6 +594,49 @@ package spine
 //@   loop 0 invariant count: spawnn == pre(spawnn) + $k
 //@   loop 0 invariant each: forall d int :: pre(spawnn) <= d && d < spawnn ==> spawnfn[d] == $s[d - pre(spawnn)] && spawnarg(d, 0, *api.Message) == msg
 //@   loop 0 invariant older: forall d int :: d < pre(spawnn) ==> spawnfn[d] == pre(spawnfn)[d]
+
+// ---------------------------------------------------------------------------------------
+// write approval (C12). Abstract view of the two nested maps:
+//   PEND(r,s,m)  : write m of peer s is waiting for verdicts (its timer is armed)
+//   TALLY(r,s,m) : approvals counted so far for it
+//@ define PEND(r, s, m) = has(r.pendingWriteApprovals, s) && has(r.pendingWriteApprovals[s], m) && r.pendingWriteApprovals[s][m] != nil
+//@ define TALLY(r, s, m) = ite(has(r.writeApprovalReceived, s) && has(r.writeApprovalReceived[s], m), r.writeApprovalReceived[s][m], 0)
+
+// representation invariant: the inner maps of different peers are different objects
+//@ define WINV(r) = r.pendingWriteApprovals != nil && r.writeApprovalReceived != nil && (forall a string, b string :: has(r.pendingWriteApprovals, a) && has(r.pendingWriteApprovals, b) && a != b ==> r.pendingWriteApprovals[a] != r.pendingWriteApprovals[b]) && (forall a string, b string :: has(r.writeApprovalReceived, a) && has(r.writeApprovalReceived, b) && a != b ==> r.writeApprovalReceived[a] != r.writeApprovalReceived[b])
+
+//@ func (*FeatureLocal).ApproveOrDenyWrite
+//@   requires r != nil && r.Feature != nil && r.address != nil && msg != nil && msg.RequestHeader != nil && msg.RequestHeader.MsgCounter != nil && msg.RequestHeader.AddressDestination != nil && msg.FeatureRemote != nil
+//@   requires WINV(r)
+//@   ensures[C12] inv-kept: WINV(r)
+//@   let SKI = msg.DeviceRemote.Ski()
+//@   let MC = *msg.RequestHeader.MsgCounter
+//@   let N = len(r.writeApprovalCallbacks)
+//@   let S = msg.FeatureRemote.Device().Sender()
+//@   let K = rn[S]
+//@   define ACTIVE = r.Feature.role == model.RoleTypeServer && msg.DeviceRemote != nil && PEND(r, SKI, MC)
+//@   define DENY = err.ErrorNumber != 0
+//@   define LAST = N <= 1 || TALLY(r, SKI, MC) + 1 >= N
+//@   ensures[C12] ignored: !old(ACTIVE) ==> respSame && sendfails == old(sendfails) && wapplied == old(wapplied) && forall s string, m model.MsgCounterType :: (PEND(r, s, m) <==> old(PEND(r, s, m))) && TALLY(r, s, m) == old(TALLY(r, s, m))
+//@   ensures[C12] others-untouched: forall s string, m model.MsgCounterType :: !(s == SKI && m == MC) ==> (PEND(r, s, m) <==> old(PEND(r, s, m))) && TALLY(r, s, m) == old(TALLY(r, s, m))
+//@   ensures[C12] denied: old(ACTIVE && DENY) ==> !PEND(r, SKI, MC) && TALLY(r, SKI, MC) == 0 && wapplied == old(wapplied) && (sendfails == old(sendfails) ==> respAppended(S, K) && rcls[S][K] == model.CmdClassifierTypeResult && answers(S, K, msg.RequestHeader, r.address) && rerr[S][K] == old(err.ErrorNumber))
+//@   ensures[C12] approved-last: old(ACTIVE && !DENY && LAST) ==> !PEND(r, SKI, MC) && TALLY(r, SKI, MC) == 0 && wapplied == old(wapplied) + 1 && wmsg[old(wapplied)] == msg
+//@   ensures[C12] approved-partial: old(ACTIVE && !DENY && !LAST) ==> PEND(r, SKI, MC) && TALLY(r, SKI, MC) == old(TALLY(r, SKI, MC)) + 1 && respSame && sendfails == old(sendfails) && wapplied == old(wapplied)
+//@   modifies map(gomap[string]map[model.MsgCounterType]*time.Timer), map(gomap[model.MsgCounterType]*time.Timer), map(gomap[string]map[model.MsgCounterType]int), map(gomap[model.MsgCounterType]int), @RESP, @PUBLISH, @WRITE, world, held, sendfails, timers
+
+// the approval timeout of one write: expires that write only, answers it with an error, applies nothing
+//@ func (*FeatureLocal).addPendingApproval$1
+//@   requires r != nil && r.Feature != nil && r.address != nil && msg != nil && msg.RequestHeader != nil && msg.RequestHeader.MsgCounter != nil && msg.RequestHeader.AddressDestination != nil && msg.FeatureRemote != nil
+//@   requires WINV(r)
+//@   ensures[C12] inv-kept: WINV(r)
+//@   let MC = *msg.RequestHeader.MsgCounter
+//@   let S = msg.FeatureRemote.Device().Sender()
+//@   let K = rn[S]
+//@   ensures[C12] own-entry-only: forall s string, m model.MsgCounterType :: !(s == ski && m == MC) ==> (PEND(r, s, m) <==> old(PEND(r, s, m))) && TALLY(r, s, m) == old(TALLY(r, s, m))
+//@   ensures[C12] expired: !PEND(r, ski, MC)
+//@   ensures[C12] one-error: sendfails == old(sendfails) ==> respAppended(S, K) && rcls[S][K] == model.CmdClassifierTypeResult && answers(S, K, msg.RequestHeader, r.address) && rerr[S][K] != model.ErrorNumberTypeNoError
+//@   ensures[C12] not-applied: wapplied == old(wapplied)
+//@   modifies map(gomap[string]map[model.MsgCounterType]*time.Timer), map(gomap[model.MsgCounterType]*time.Timer), @RESP, outmisc, sendfails, held
 
 //@ func[C01] (*FeatureLocal).HandleMessage impl:api.FeatureLocalInterface.HandleMessage safety-root
 //@   assumes r != nil && r.Feature != nil && r.address != nil && r.responseMsgCallback != nil && r.entity != nil && r.pendingWriteApprovals != nil && r.writeApprovalReceived != nil && (forall k string :: has(r.pendingWriteApprovals, k) ==> r.pendingWriteApprovals[k] != nil)
@@ -673,7 +717,7 @@ package spine
 // further roots of the safety sweep (C05): inbound entry point and the discovery handlers
 //@ func (*DeviceRemote).HandleSpineMesssage safety-root
 //@   assumes d != nil && d.sender != nil && d.localDevice != nil
-//@   modifies @RESP, @PUBLISH, world, held, spawn, hmn, sendfails, map(gomap[model.MsgCounterType]string)
+//@   modifies @RESP, @PUBLISH, @WRITE, world, held, spawn, hmn, sendfails, map(gomap[model.MsgCounterType]string)
 
 //@ func (*DeviceRemote).AddEntityAndFeatures safety-root
 //@   assumes d != nil && d.Device != nil && data != nil && forall i int :: 0 <= i && i < len(d.entities) ==> d.entities[i] != nil
